@@ -107,3 +107,29 @@ Definition decide_sampler (prefix : str) (r : rules) (first : dest) (later : lis
 (* what the selected sampler reads: all key fields on the root span, non-root ones elsewhere *)
 Definition sampler_reads (s : option sdef) : list str * list str :=
   get_key_fields (match s with Some d => sd_fields d | None => [] end).
+
+(* ---------- route layer: the dataset of a classic-key request ----------
+   route.getDatasetFromRequest: the {datasetName} path segment (the mux matches on the ENCODED path)
+   is percent-decoded and nothing else: "%XX" is the byte XX, every other byte, '+' included,
+   stands for itself; a '%' not followed by two hex digits is an error (the request is rejected). *)
+Definition hexval (c : N) : option N :=
+  if in_range 48 57 c then Some (c - 48)%N
+  else if in_range 97 102 c then Some (c - 87)%N
+  else if in_range 65 70 c then Some (c - 55)%N
+  else None.
+
+Fixpoint pct_decode (l : str) : option str :=
+  match l with
+  | [] => Some []
+  | c :: r =>
+      if (c =? 37)%N then
+        match r with
+        | h1 :: h2 :: r' =>
+            match hexval h1, hexval h2 with
+            | Some a, Some b => option_map (cons (16 * a + b)%N) (pct_decode r')
+            | _, _ => None
+            end
+        | _ => None
+        end
+      else option_map (cons c) (pct_decode r)
+  end.
